@@ -85,21 +85,75 @@ PROPS["C16"] = {
     ],
 }
 
+MIR_TRUSTED = ['rustc (repository toolchain) -Zdump-mir output is a faithful rendering of the MIR before the coroutine transform', 'mirsym: MIR text parser + bounded DAG unrolling + state-merging encoder (vlib/mirsym), validated by parser self-check and seeded mutations', 'z3 (z3-solver 4.15 / 5.1 python bindings)']
+
+PROPS["C19"] = {
+    "mir": "c19",
+    "level": "other",
+    "explanation": "Symbolic path-condition checking over the real MIR of WalCleaner::cleanup_up_to (rustc dump, z3): the negation of each guard / ordering obligation is sent to the solver over all branch outcomes of every opaque call and both values of CONFIG.wal.conservative_mode; unsat = no feasible path deletes a log after a failed archive, before archiving, or at or above the cut-off.",
+    "trusted_base": MIR_TRUSTED,
+    "outside": [
+        "archive content fidelity (MessagePack + zstd) and recovery order: data relations inside serde / zstd code",
+        "that WalArchiver::archive_logs_up_to returns Err for every file it failed to archive (callee treated as opaque)",
+        "fault patterns of the real file system (the obligations quantify over every Result outcome instead)",
+    ],
+}
+
+PROPS["C01"] = {
+    "mir": "c01",
+    "level": "other",
+    "explanation": "Symbolic path-condition checking over the real MIR of the write path (insert_and_maybe_flush, the flush task of FlushWorker::run, WalCleaner::cleanup_up_to, SegmentIndex::save/load, InnerWalWriter::append_immediate): the ordering and guard facts the property's mechanisms rest on - WAL append before memtable insert, WAL pruning only after write+verify+publish with cut-off segment_id+1, index replaced by temp/fsync/rename, flush-each-write honoured - each decided by z3 over every branch outcome of the opaque calls.",
+    "trusted_base": MIR_TRUSTED,
+    "outside": [
+        "the quantifier itself: crash points x histories x configurations are not explored; only the sequential ordering facts are decided",
+        "that WAL log numbering and segment numbering stay in step (manual FLUSH, empty flushes advance one counter and not the other; the cleaner compares them): a relation between two counters across histories, not a per-function path fact",
+        "WAL recovery, schema reload, compaction hand-over durability, graceful shutdown",
+    ],
+}
+
+PROPS["C03"] = {
+    "mir": "c03",
+    "level": "other",
+    "explanation": "Symbolic path-condition checking over the real MIR of the publication protocol (flush task, queue_for_flush, insert_and_maybe_flush): the passive in-memory copy is released only after the segment is verified and in the live list, nothing is published on a failure branch, the in-flight marker is set before the job is sent, the passive copy exists before the memtable is swapped - each decided by z3 over every branch outcome.",
+    "trusted_base": MIR_TRUSTED,
+    "outside": [
+        "interleavings of reads with these steps (schedules): no engine of this family explores them; only the sequential order of the steps is decided",
+        "double visibility between passive buffer and published segment, COUNT vs selection during a flush, FIFO mailbox order, response-writer dedup",
+    ],
+}
+
+PROPS["C05"] = {
+    "mir": "c05",
+    "level": "other",
+    "explanation": "Symbolic path-condition checking over the real MIR of CompactionHandover::commit_batch: the index is changed only if every output directory exists, only under the shard flush lock, the live list is updated only after a successful index save, inputs are retired before outputs are inserted, and only drained labels are retired from the live list and caches - each decided by z3 within the loop unrolling bound.",
+    "trusted_base": MIR_TRUSTED,
+    "outside": [
+        "equality of query answers before and after compaction (needs the k-way merge, HashMap-bound)",
+        "policy / batch planning, multi-level cascades, crash points between output write, index swap and reclaim",
+        "SegmentIndex::retire_uid_from_labels' own semantics (BTreeMap code; callee opaque here)",
+    ],
+}
+
+PROPS["C11"] = {
+    "mir": "c11",
+    "level": "other",
+    "explanation": "Symbolic path-condition checking over the real MIR: a flushed segment enters the live list only after flush Ok + verification, segments.idx is replaced by temp/fsync/rename with a stale temp removed on load, compaction swaps index entries only for existing output directories and updates the live list only after the save - each decided by z3.",
+    "trusted_base": MIR_TRUSTED,
+    "outside": [
+        "byte-immutability of segment files over a lifetime, id reuse after restart (SegmentIdLoader / RangeAllocator over HashMap and I/O), crash points",
+    ],
+}
+
 # Properties not (or not yet) claimed, each with the reason. Entries are removed from here
 # when a check for the property is registered in PROPS.
 NOT_APPLICABLE = {
-    "C01": "check not built yet (planned: mirsym ordering/guard obligations)",
-    "C03": "check not built yet (planned: mirsym publication-order obligations)",
     "C04": "order is decided by schedules of concurrent flows, BinaryHeap tie-breaking over HashMap-materialised rows and a BTreeMap<String,Vec<Event>> memtable; none of these finishes under Kani (3-row merger > 25 min, 3 inserts > 15 min) and no schedule explorer belongs to this technique",
-    "C05": "check not built yet",
     "C06": "check not built yet",
     "C07": "check not built yet",
-    "C11": "check not built yet",
     "C12": "check not built yet",
     "C13": "check not built yet",
     "C14": "check not built yet",
     "C15": "group.rs/matcher.rs operate on HashMap<String, GroupedRowIndices> and HashMap-backed candidate zones; at 3-4 min per hash-map operation under Kani no harness with two events per side finishes, and the two-pointer sweep is a data-dependent loop the MIR path engine cannot summarise",
     "C17": "check not built yet",
-    "C19": "check not built yet",
     "C20": "encoders are arrow array builders, serde_json/sonic writers and String formatting over Vec<ScalarValue> batches; none finishes under Kani (serde_json probe exhausted 30 GB) and the equivalence is a data relation, not a guard/ordering fact the MIR engine can state",
 }
